@@ -348,14 +348,16 @@ def _real_clock_case(rng):
 
 
 def _iexp(rng, depth=0):
-    """an interval built with the TimeInterval constructors and operators (contract-respecting arguments)"""
+    """an interval built with the TimeInterval constructors and operators (non-negative arguments; the usec argument
+    of the (sec, usec) constructor also >= 10^6)"""
     k = rng.random()
     if depth >= 2 or k < 0.45:
         c = rng.random()
         if c < 0.4:
             return 'u%d' % rng.choice([0, 1, 999999, 1000000, 1000001, 200000, 250000, 1500000, 59999999, 3600000000])
         if c < 0.7:
-            return 'p%d.%d' % (rng.choice([0, 1, 2, 59, 3600]), rng.choice([0, 1, 500000, 999999]))
+            return 'p%d.%d' % (rng.choice([0, 1, 2, 59, 3600]),
+                               rng.choice([0, 1, 500000, 999999, 1000000, 1000001, 2500000, 5000000, 60000000]))
         return 'M%d' % rng.choice([0, 1, 200, 999, 1000, 1001, 2500, 60000])
     if k < 0.8:
         return '*%d(%s)' % (rng.choice([0, 1, 2, 3, 5, 10, 20, 60, 1000]), _iexp(rng, depth + 1))
